@@ -208,7 +208,7 @@ async fn run_config(hist: &[Op], kind: BackendKind, cache: CacheCfg) -> (Vec<Str
                     Err(e) => t.push(format!("r.reopen: Err({e})")),
                 }
             }
-            Op::RSync(req) => {
+            Op::RSync(req) | Op::RBad(req, _) => {
                 if let (Some(w), Some(r)) = (wc.as_mut(), rc.as_mut()) {
                     let rl = r.info().length;
                     let block = match req.block {
@@ -225,6 +225,15 @@ async fn run_config(hist: &[Op], kind: BackendKind, cache: CacheCfg) -> (Vec<Str
                     match w.create_proof(block, hash, seek, up).await {
                         Ok(Some(p)) => {
                             t.push(format!("proof fp {:x}", env::fp128(&[format!("{p:?}").as_bytes()])));
+                            // RBad: a corrupted version of the honest proof (must be refused
+                            // identically under every configuration, and must not poison what follows)
+                            let p = match op {
+                                Op::RBad(_, a) => match super::c13::alter_for_events(&p, *a) {
+                                    Some(q) => q,
+                                    None => p,
+                                },
+                                _ => p,
+                            };
                             let r2 = r.verify_and_apply_proof(&p).await;
                             t.push(format!("apply {:?}", r2.map_err(|e| format!("{e}"))));
                         }
@@ -443,7 +452,20 @@ pub fn run(tier: &str) -> i32 {
     }
     // replica histories with writer growth, hash requests, replica clears and reopen (cache
     // coherence on the replica side: nodes looked up while missing and received later)
-    let ag = |m: &SysModel| -> Vec<Op> { super::faults::replica_ops_growth(m, 5) };
+    let ag = |m: &SysModel| -> Vec<Op> {
+        let mut v = super::faults::replica_ops_growth(m, 5);
+        // a corrupted copy of each block-only / hash-only request's proof
+        let bad: Vec<Op> = v
+            .iter()
+            .filter_map(|o| match o {
+                Op::RSync(r) if r.up.is_none() => Some(Op::RBad(r.clone(), 0)),
+                _ => None,
+            })
+            .take(2)
+            .collect();
+        v.extend(bad);
+        v
+    };
     let dg = if quick { 5 } else { 6 };
     let hg = enumerate(dg, &super::c03::shape(2, 0, None), true, &ag);
     fams.push(json!({"family": "replica of 2 growing to 5 (journal backend only x 3 cache settings)", "depth": dg, "histories": hg.len()}));
